@@ -215,10 +215,51 @@ def run_shard(u, binary, shard, seed, tier, rundir, extra_env=None, replay=None)
         except subprocess.TimeoutExpired:
             rc = -999
     wall = time.time() - t0
+    fuzz_note = None
+    if u.get("kind") == "fuzz" and not replay and u.get("_fuzz"):
+        fuzz_note = collect_fuzz_crashers(u, binary, shard, seed, tier, rundir, extra_env, cwd, name)
     if not os.environ.get("VERIF_KEEP"):
         shutil.rmtree(cwd, ignore_errors=True)
     return {"unit": u["name"], "shard": shard, "rc": rc, "out": outp, "wall": wall, "name": name,
-            "rapid_seed": mix(seed, u["name"], shard)}
+            "rapid_seed": mix(seed, u["name"], shard), "fuzz_unconfirmed": fuzz_note}
+
+
+def collect_fuzz_crashers(u, binary, shard, seed, tier, rundir, extra_env, cwd, name):
+    """Native fuzzing: the crasher the engine saved under testdata/fuzz/<Target>/ is the reproducible unit. Each one is
+    copied to the replay directory (raw file + a replay JSON whose case carries the file's text as "gofuzz") and re-run
+    once through the unit's plain replay path (the target's own oracle, watchdog included). Confirmed crashers become
+    fail files of this shard (=> VIOLATION); returns a note when a crasher did not reproduce (=> inconclusive, exit 2)."""
+    cdir = os.path.join(cwd, "testdata", "fuzz", u["fuzz_target"])
+    note = None
+    for i, fn in enumerate(sorted(os.listdir(cdir)) if os.path.isdir(cdir) else []):
+        text = open(os.path.join(cdir, fn), errors="surrogateescape").read()
+        facet = (u.get("facets") or [u["name"]])[0]
+        case = dict(u.get("fuzz_case") or {})
+        case["gofuzz"] = text
+        doc = {"property": facet.split("/")[0], "facet": facet, "unit": u["name"], "case": case, "seed": str(seed),
+               "message": "native fuzzing (%s) saved this crasher; it did not fail again on replay" % u["fuzz_target"]}
+        os.makedirs(REPLAYDIR, exist_ok=True)
+        base = os.path.join(REPLAYDIR, "%s-%s-%s" % (doc["property"], u["fuzz_target"], fn[:16]))
+        shutil.copyfile(os.path.join(cdir, fn), base + ".fuzz")
+        json.dump(doc, open(base + ".fuzz.json", "w"), indent=1)
+        u2 = dict(u, name="%s-confirm%d" % (u["name"], i), _fuzz=False)
+        r2 = run_shard(u2, binary, shard, seed, tier, rundir, extra_env, replay=base + ".fuzz.json")
+        faildir = os.path.join(rundir, "fail")
+        mine = [f for f in (os.listdir(faildir) if os.path.isdir(faildir) else []) if f.endswith("-" + r2["name"] + ".json")]
+        if r2["rc"] == 0:
+            note = "native fuzz crasher %s.fuzz did not reproduce on replay (inconclusive)" % base
+            continue
+        if mine:   # the oracle's own report (classified panic / confirmed hang), re-tagged for this shard
+            for f in mine:
+                d2 = json.load(open(os.path.join(faildir, f)))
+                d2["case"] = case
+                json.dump(d2, open(os.path.join(faildir, "fuzz%d-%s" % (i, f[:-len(r2["name"]) - 5] + name + ".json")), "w"), indent=1)
+                os.remove(os.path.join(faildir, f))
+        else:      # the replay process died: its output is the evidence
+            doc["message"] = "native fuzz crasher kills the test process on replay: " + open(r2["out"], errors="replace").read()[:1500]
+            os.makedirs(faildir, exist_ok=True)
+            json.dump(doc, open(os.path.join(faildir, "fuzz%d-crash-%s.json" % (i, name)), "w"), indent=1)
+    return note
 
 
 # ----------------------------------------------------------------------------- evidence
@@ -317,6 +358,8 @@ def classify(res, rundir):
         return "ok", [], ""
     if fails:
         return "fail", fails, ""
+    if res.get("fuzz_unconfirmed"):
+        return "infra", [], res["fuzz_unconfirmed"]
     if res["rc"] == -999 or "panic: test timed out" in out:
         return "infra", [], "time budget exhausted"
     if "cannot allocate memory" in out or "out of memory" in out.lower() and "fatal error: runtime: out of memory" in out:
@@ -412,7 +455,7 @@ def main():
         u["_fuzz"] = bool(tiered(u.get("fuzztime", (0, 0)), tier)) and not replay
     # build sequentially (the go build cache is shared; builds are themselves parallel)
     for u in units:
-        key = (u["pkg"], u.get("toolchain", "go124"), u["_race"], u.get("fuzz_target") if u["_fuzz"] else None)
+        key = (u["pkg"], u.get("toolchain", "go124"), u["_race"], "fuzz" if u["_fuzz"] else None)  # one instrumented binary serves every target
         if key in binaries:
             u["_bin"] = binaries[key]
             continue
